@@ -72,7 +72,7 @@ func c09NewWorker() (*c09Worker, error) {
 		c.LeavePropagateDelay = time.Millisecond
 		c.MemberlistConfig.GossipInterval = 100 * time.Millisecond // nothing to gossip to; fewer timer wake-ups
 		c.MemberlistConfig.ProbeInterval = time.Second
-		c.QueryTimeoutMult = 2          // queries stay open for 200 ms
+		c.QueryTimeoutMult = 2 // queries stay open for 200 ms
 		if c09Slow {
 			c.QueryTimeoutMult = 100
 		}
